@@ -3,6 +3,7 @@ package playback
 import (
 	"errors"
 	"fmt"
+	"io"
 	"net"
 	"net/http"
 	"os"
@@ -69,7 +70,14 @@ func seekAndMux(
 		dts := startOffset
 		prevInit := firstInit
 
-		segmentDuration, err := segmentFMP4MuxParts(f, dts, duration, firstInit.Tracks, m)
+		// ignore the torn or zero-filled tail left by a crash
+		validSize, err := segmentFMP4ValidSize(f)
+		if err != nil {
+			return err
+		}
+
+		segmentDuration, err := segmentFMP4MuxParts(
+			io.NewSectionReader(f, 0, validSize), dts, duration, firstInit.Tracks, m)
 		if err != nil {
 			return err
 		}
@@ -100,7 +108,13 @@ func seekAndMux(
 				dts = seg.Start.Sub(start) // this is positive
 			}
 
-			segmentDuration, err = segmentFMP4MuxParts(f, dts, duration, firstInit.Tracks, m)
+			validSize, err = segmentFMP4ValidSize(f)
+			if err != nil {
+				return err
+			}
+
+			segmentDuration, err = segmentFMP4MuxParts(
+				io.NewSectionReader(f, 0, validSize), dts, duration, firstInit.Tracks, m)
 			if err != nil {
 				return err
 			}
